@@ -116,12 +116,27 @@ fn truthy_containers() {
 #[kani::unwind(4)]
 #[kani::stub(std::fmt::format, no_format)]
 fn contains_rejects_scalar_receivers() {
-    let recv = any_scalar();
+    // one call per receiver kind, each built by its concrete constructor: with a symbolic
+    // discriminant symex wanders into the (infeasible) array/map arms -- PartialEq recursion and
+    // HashMap hashing -- and does not finish
     let needle = any_scalar();
-    let res = recv.contains(&needle);
-    assert!(res.is_err());
-    std::mem::forget(res);
-    std::mem::forget(recv);
+    macro_rules! rejected {
+        ($recv:expr) => {{
+            let recv: Value = $recv;
+            let res = recv.contains(&needle);
+            assert!(res.is_err());
+            std::mem::forget(res);
+            std::mem::forget(recv);
+        }};
+    }
+    rejected!(Value::undefined());
+    rejected!(Value::none());
+    rejected!(Value::from(kani::any::<bool>()));
+    rejected!(Value::from(kani::any::<u64>()));
+    rejected!(Value::from(kani::any::<i64>()));
+    rejected!(Value::from(kani::any::<u128>()));
+    rejected!(Value::from(kani::any::<i128>()));
+    rejected!(Value::from(kani::any::<f64>()));
     std::mem::forget(needle);
 }
 
